@@ -19,9 +19,25 @@ pub fn set_logdir(scratch: &Path) {
     std::env::set_var("RWSV_LOGDIR", scratch.join("logs"));
 }
 
+/// A port nobody listens on, never handed out twice by this process (the kernel may return a port again as soon as the
+/// probing listener is closed: two parallel launches given the same port made one server fail to bind while its harness
+/// thread talked to the other one -- a false observation, met once in C12).
 pub fn free_port() -> u16 {
-    let l = TcpListener::bind("127.0.0.1:0").expect("bind");
-    l.local_addr().unwrap().port()
+    static HANDED_OUT: std::sync::Mutex<Vec<u16>> = std::sync::Mutex::new(Vec::new());
+    loop {
+        let l = TcpListener::bind("127.0.0.1:0").expect("bind");
+        let p = l.local_addr().unwrap().port();
+        let mut g = HANDED_OUT.lock().unwrap();
+        if !g.contains(&p) {
+            g.push(p);
+            return p;
+        }
+    }
+}
+
+/// SIGKILL to every process of the group led by `pid` (the server, and strace when it wraps it)
+fn kill_group(pid: u32) {
+    let _ = Command::new("kill").args(["-KILL", "--", &format!("-{}", pid)]).stdout(Stdio::null()).stderr(Stdio::null()).status();
 }
 
 pub struct Srv {
@@ -65,6 +81,11 @@ impl Srv {
         cmd.stdin(Stdio::null())
             .stdout(std::fs::File::create(&stdout_path).map_err(|e| e.to_string())?)
             .stderr(std::fs::File::create(&stderr_path).map_err(|e| e.to_string())?);
+        // own process group: stop() ends the whole group (killing only strace leaves the traced server running)
+        {
+            use std::os::unix::process::CommandExt;
+            cmd.process_group(0);
+        }
         let mut child = cmd.spawn().map_err(|e| format!("spawn {}: {}", bin, e))?;
         let deadline = Instant::now() + Duration::from_secs(if strace_out.is_some() { 20 } else { 8 });
         loop {
@@ -84,7 +105,11 @@ impl Srv {
                 if let Ok(s) = TcpStream::connect_timeout(a, Duration::from_millis(100)) {
                     // the probe connection occupies a worker until it is closed: close it at once
                     drop(s);
-                    std::thread::sleep(Duration::from_millis(20));
+                    // somebody accepts on that address -- is it OUR server?  One that could not bind exits at once.
+                    std::thread::sleep(Duration::from_millis(60));
+                    if let Ok(Some(st)) = child.try_wait() {
+                        return Err(format!("server exited during start-up although {} accepts connections (another process listens there): {:?}", a, st));
+                    }
                     return Ok(Srv { child, addr: *a, stdout_path, stderr_path });
                 }
             }
@@ -92,6 +117,7 @@ impl Srv {
                 return Err(format!("server exited during start-up: {:?}", st));
             }
             if Instant::now() > deadline {
+                kill_group(child.id());
                 let _ = child.kill();
                 let _ = child.wait();
                 return Err("server did not accept connections on any expected address".to_string());
@@ -103,6 +129,7 @@ impl Srv {
         matches!(self.child.try_wait(), Ok(None))
     }
     pub fn stop(mut self) {
+        kill_group(self.child.id());
         let _ = self.child.kill();
         let _ = self.child.wait();
     }
@@ -163,9 +190,42 @@ fn bad_request(i: usize) -> (String, Vec<u8>) {
         ("oversized", [b"GET /".to_vec(), b"a".repeat(20000), b" HTTP/1.1\r\n\r\n".to_vec()].concat()),
         ("empty_line_first", b"\r\n\r\n".to_vec()),
         ("dotdot", b"GET /../../etc/passwd HTTP/1.1\r\n\r\n".to_vec()),
+        // requests with LONG bodies (what they leave behind in a worker must not reach the next request of that worker)
+        ("long_form_post", [b"POST /form-url-encoded-enctype-post-method HTTP/1.1\r\nHost: localhost\r\nContent-Type: application/x-www-form-urlencoded\r\nContent-Length: 3006\r\n\r\nowner=".to_vec(), b"t".repeat(3000)].concat()),
+        ("long_put", [b"PUT /a.txt HTTP/1.1\r\nHost: localhost\r\nContent-Length: 8000\r\n\r\n".to_vec(), b"&z=9".repeat(2000)].concat()),
     ];
     let (n, b) = &v[i % v.len()];
     (n.to_string(), b.clone())
+}
+
+/// The valid requests of a history: after ANY history each of them must be answered exactly as the fresh server answered it
+/// (requests with a body included: what an earlier, longer request left behind must not leak into them).
+fn valid_probes() -> Vec<(&'static str, Vec<u8>)> {
+    let form = |body: &str| format!("POST /form-url-encoded-enctype-post-method HTTP/1.1\r\nHost: localhost\r\nContent-Type: application/x-www-form-urlencoded\r\nContent-Length: {}\r\n\r\n{}", body.len(), body).into_bytes();
+    let multi = "--b1\r\nContent-Disposition: form-data; name=\"f\"\r\n\r\nvalue\r\n--b1--\r\n";
+    vec![
+        ("get_file", VALID.to_vec()),
+        ("post_form", form("name=alice")),
+        ("head_file", b"HEAD /a.txt HTTP/1.1\r\nHost: localhost\r\n\r\n".to_vec()),
+        ("post_multipart", format!("POST /form-multipart-enctype-post-method HTTP/1.1\r\nHost: localhost\r\nContent-Type: multipart/form-data; boundary=b1\r\nContent-Length: {}\r\n\r\n{}", multi.len(), multi).into_bytes()),
+        ("get_form", b"GET /form-get-method?k=v HTTP/1.1\r\nHost: localhost\r\n\r\n".to_vec()),
+    ]
+}
+
+/// a response without its timestamp header line (mechanical)
+fn without_timestamp(raw: &Option<Vec<u8>>) -> Vec<u8> {
+    let r = match raw { Some(r) => r, None => return vec![] };
+    let head_end = r.windows(4).position(|w| w == b"\r\n\r\n").unwrap_or(r.len());
+    let mut out = vec![];
+    for line in r[..head_end].split(|b| *b == b'\n') {
+        if line.to_ascii_lowercase().starts_with(b"date-unix-epoch-nanos") {
+            continue;
+        }
+        out.extend_from_slice(line);
+        out.push(b'\n');
+    }
+    out.extend_from_slice(&r[head_end..]);
+    out
 }
 
 fn status_of(raw: &Option<Vec<u8>>) -> u64 {
@@ -209,18 +269,28 @@ pub fn history(o: &Opts) -> i32 {
                 return 2;
             }
         };
+        // how the fresh server answers each valid request (timestamp line aside)
+        let probes = valid_probes();
+        let reference: Vec<Vec<u8>> = probes.iter().map(|(_, b)| without_timestamp(&exchange(addr, b, t))).collect();
         out.emit(&json!({"ev":"Start","n":n,"history":h["hist"]}));
         for (i, k) in h["hist"].as_array().unwrap().iter().enumerate() {
             let kind = k.as_str().unwrap();
             let ev = match kind {
                 "valid" => {
-                    let r = exchange(addr, VALID, t);
-                    json!({"ev":"Conn","kind":kind,"flavour":"get_file","answered":r.is_some(),"status":status_of(&r)})
+                    let k = (i + hi) % probes.len();
+                    let r = exchange(addr, &probes[k].1, t);
+                    json!({"ev":"Conn","kind":kind,"flavour":probes[k].0,"answered":r.is_some(),"status":status_of(&r),"same":without_timestamp(&r) == reference[k]})
+                }
+                "heavy" => {
+                    // an extreme but satisfiable answer: 400 one-byte ranges of the 6 MiB file (length x count passes 2^31)
+                    let bytes = format!("GET /huge.bin HTTP/1.1\r\nHost: localhost\r\nRange: bytes={}\r\n\r\n", ["0-0"; 400].join(",")).into_bytes();
+                    let r = exchange(addr, &bytes, Duration::from_secs(30));
+                    json!({"ev":"Conn","kind":"bad","flavour":"many_ranges_of_large_file","answered":r.is_some(),"status":status_of(&r),"same":true})
                 }
                 "bad" | "internal" => {
                     let (name, bytes) = bad_request(i + hi);
                     let r = exchange(addr, &bytes, t);
-                    json!({"ev":"Conn","kind":kind,"flavour":name,"answered":r.is_some(),"status":status_of(&r)})
+                    json!({"ev":"Conn","kind":kind,"flavour":name,"answered":r.is_some(),"status":status_of(&r),"same":true})
                 }
                 _ => {
                     // "close": early close, half-sent request, reset before / after sending
@@ -254,7 +324,7 @@ pub fn history(o: &Opts) -> i32 {
                         }
                         drop(s);
                     }
-                    json!({"ev":"Conn","kind":"close","flavour":flavour,"answered":false,"status":0})
+                    json!({"ev":"Conn","kind":"close","flavour":flavour,"answered":false,"status":0,"same":true})
                 }
             };
             out.emit(&ev);
@@ -300,7 +370,7 @@ pub fn history(o: &Opts) -> i32 {
         let big_ok = |r: &Option<Vec<u8>>| -> bool { status_of(r) == 200 && r.as_ref().map(|b| b.len() > HUGE).unwrap_or(false) };
         let tb = Duration::from_secs(20);
         let r = exchange(addr, huge_req, tb);
-        out.emit(&json!({"ev":"Conn","kind":"valid","flavour":"get_huge","answered":r.is_some(),"status":if big_ok(&r) { 200 } else { 0 }}));
+        out.emit(&json!({"ev":"Conn","kind":"valid","flavour":"get_huge","answered":r.is_some(),"status":if big_ok(&r) { 200 } else { 0 },"same":true}));
         let barrier = std::sync::Arc::new(std::sync::Barrier::new(n));
         let handles: Vec<_> = (0..n)
             .map(|_| {
@@ -315,6 +385,12 @@ pub fn history(o: &Opts) -> i32 {
             .collect();
         let answered = handles.into_iter().filter_map(|h| h.join().ok()).filter(|ok| *ok).count();
         out.emit(&json!({"ev":"Burst","sent":n,"answered":answered}));
+        for (k, (name, bytes)) in probes.iter().enumerate() {
+            for _ in 0..2 * n {
+                let r = exchange(addr, bytes, t);
+                out.emit(&json!({"ev":"Conn","kind":"valid","flavour":name,"answered":r.is_some(),"status":status_of(&r),"same":without_timestamp(&r) == reference[k]}));
+            }
+        }
         out.emit(&json!({"ev":"Exit","alive":srv.alive()}));
         srv.stop();
     }
@@ -403,6 +479,9 @@ fn conc_site(root: &Path) {
     let pat = |key: u64, len: u64| -> Vec<u8> { (0..len).map(|i| ((key + 131 * i + i / 251) % 256) as u8).collect() };
     std::fs::write(root.join("big.bin"), pat(11, 300_000)).unwrap();
     std::fs::write(root.join("big2.bin"), pat(13, 120_000)).unwrap();
+    // a file far larger than what the kernel buffers for one connection: a client that leaves in the middle of it makes the
+    // server's write fail (never among the compared requests; only the clients that abandon a transfer ask for it)
+    std::fs::write(root.join("huge24.bin"), vec![b'H'; 24 << 20]).unwrap();
     // links (a server that resolves them through process-wide state, e.g. the working directory, disturbs its neighbours)
     std::os::unix::fs::symlink("a.txt", root.join("lnk.txt")).ok();
     std::os::unix::fs::symlink("docs", root.join("ldocs")).ok();
@@ -418,6 +497,26 @@ fn conc_site(root: &Path) {
 }
 const MASS: usize = 2600;
 const MASS_EXT: [&str; 10] = ["txt", "css", "js", "html", "svg", "png", "xml", "pdf", "md", "json"];
+
+/// a client that asks for the huge file, takes the first 32 KiB and resets the connection
+fn abandon_transfer(addr: SocketAddr) {
+    abandon_transfer_of(addr, "/huge24.bin")
+}
+fn abandon_transfer_of(addr: SocketAddr, target: &str) {
+    if let Ok(mut s) = TcpStream::connect_timeout(&addr, Duration::from_secs(2)) {
+        let _ = s.write_all(format!("GET {} HTTP/1.1\r\nHost: localhost\r\n\r\n", target).as_bytes());
+        let _ = s.set_read_timeout(Some(Duration::from_secs(2)));
+        let mut got = 0usize;
+        let mut buf = [0u8; 8192];
+        while got < 32 * 1024 {
+            match s.read(&mut buf) {
+                Ok(0) | Err(_) => break,
+                Ok(k) => got += k,
+            }
+        }
+        set_linger0(&s);
+    }
+}
 
 /// C08 on the wire
 pub fn conc(o: &Opts) -> i32 {
@@ -482,9 +581,28 @@ pub fn conc(o: &Opts) -> i32 {
                     (ri, exchange(addr, &bytes, t))
                 }));
             }
+            // clients that abandon a large transfer are part of any mix: in every second round as many of them as there are
+            // workers leave the barrier together with the others (their own answers are not compared: they never read them)
+            let mut leavers = vec![];
+            if round % 2 == 0 {
+                for _ in 0..n.min(4) {
+                    leavers.push(std::thread::spawn(move || abandon_transfer(addr)));
+                }
+            }
             for h in handles {
                 let (ri, r) = h.join().unwrap();
                 out.emit(&json!({"ev":"Conc","req":ri + 1,"name":reqs[ri].0,"workers":n,"round":round,"r":conc_projection(&r)}));
+            }
+            for l in leavers {
+                let _ = l.join();
+            }
+        }
+        // after the mixes: every request twice per worker, one at a time (whatever an abandoned transfer left in a worker
+        // shows in the next answer of that worker)
+        for _ in 0..2 * n.min(8) {
+            for (ri, (name, bytes)) in reqs.iter().enumerate().filter(|(i, _)| i % 4 == 0) {
+                let r = exchange(addr, bytes, t);
+                out.emit(&json!({"ev":"Conc","req":ri + 1,"name":name,"workers":n,"round":2000,"r":conc_projection(&r)}));
             }
         }
         srv.stop();
@@ -605,6 +723,9 @@ pub fn fs(o: &Opts) -> i32 {
     std::fs::create_dir_all(tree.join("outside")).unwrap();
     std::fs::write(tree.join("outside/sentinel.txt"), b"do not touch").unwrap();
     std::fs::write(tree.join("above.txt"), b"above the root").unwrap();
+    // large files: for transfers the client abandons, and for range lists whose length times the file size passes 2^31 / 2^32
+    std::fs::write(root.join("huge24.bin"), vec![b'H'; 24 << 20]).unwrap();
+    std::fs::write(root.join("big2m.bin"), vec![b'M'; 2_200_003]).unwrap();
     // a dangling link inside the root whose target would be created outside by a careless create-if-missing
     std::os::unix::fs::symlink("../outside/theme.css", root.join("theme-link.css")).ok();
     let strace_path = scratch.join("strace.out");
@@ -696,6 +817,21 @@ pub fn fs(o: &Opts) -> i32 {
         if k % 400 == 0 {
             out.emit(&json!({"ev":"Request","i":sent,"seed":format!("repeat GET {}", target),"muts":[],"status":status_of(&r)}));
         }
+    }
+    // failure paths: whatever the server does when a connection goes wrong AFTER the handler has produced its answer (a client
+    // that abandons a large transfer, resets after sending, never reads) or when an answer is extreme (thousands of parts of a
+    // large file) -- diagnostics written "only when something unusual happens" are writes, too
+    for k in 0..6 {
+        abandon_transfer_of(addr, "/huge24.bin");
+        if let Ok(mut s) = TcpStream::connect_timeout(&addr, Duration::from_secs(2)) {
+            let _ = s.write_all(VALID);
+            set_linger0(&s);
+        }
+        let specs = ["0-0"; 2000][..if k % 2 == 0 { 1100 } else { 2000 }].join(",");
+        let bytes = format!("GET /big2m.bin HTTP/1.1\r\nHost: localhost\r\nRange: bytes={}\r\n\r\n", specs).into_bytes();
+        let r = exchange(addr, &bytes, Duration::from_secs(30));
+        sent += 3;
+        out.emit(&json!({"ev":"Request","i":sent,"seed":"failure paths: abandoned transfer, reset after sending, 1100 / 2000 ranges of a 2 MiB file","muts":[],"status":status_of(&r)}));
     }
     let alive = srv.alive();
     out.emit(&json!({"ev":"Exit","alive":alive}));
